@@ -51,6 +51,9 @@ type c12Case struct {
 	// Warmup: this many session-less commands are sent on the connection before
 	// the establishment (a long-lived connection)
 	Warmup int `json:"warmup,omitempty"`
+	// Generic: the session is opened through the version-agnostic NewSession
+	// (no preferences can be given there)
+	Generic bool `json:"generic,omitempty"`
 }
 
 func c12Adv(c c12Case) []byte {
@@ -107,6 +110,8 @@ func c12One(c c12Case, r *rep.R) (string, string) {
 	cfg.CipherSuiteData = c12Adv(c)
 	cfg.FollowUnknownAlgs = true
 	w := newWorld(cfg, nil, nil)
+	// replies are windows into one reused receive buffer, as with the real transport
+	w.T.Window, w.T.Poison = true, 0x11
 	if c.First != nil {
 		var fp []ipmi.CipherSuite
 		for _, i := range c.First {
@@ -149,7 +154,15 @@ func c12One(c c12Case, r *rep.R) (string, string) {
 	var err error
 	var devErr error
 	p := guard(func() {
-		sess, err = w.Conn.NewV2Session(w.Ctx, opts)
+		if c.Generic {
+			var gs bmc.Session
+			gs, err = w.Conn.NewSession(w.Ctx, &opts.SessionOpts)
+			if v, ok := gs.(*bmc.V2Session); ok {
+				sess = v
+			}
+		} else {
+			sess, err = w.Conn.NewV2Session(w.Ctx, opts)
+		}
 		if sess != nil {
 			_, devErr = sess.GetDeviceID(w.Ctx)
 		}
@@ -368,6 +381,12 @@ func runC12(r *rep.R) {
 		}
 	}
 	// establishment on a connection that has carried many session-less commands
+	// the version-agnostic NewSession (given none: 17, then 3) against every advertised set
+	for adv := 0; adv < 1<<len(c12Universe); adv++ {
+		for order := 0; order < 3; order++ {
+			do(c12Case{Prefs: nil, Adv: adv, AdvOrder: order, Generic: true})
+		}
+	}
 	for _, n := range []int{63, 64, 65, 130, 260} {
 		do(c12Case{Prefs: nil, Adv: 0x3, Warmup: n})
 		do(c12Case{Prefs: []int{1, 0}, Adv: 0x2, Warmup: n})
